@@ -15,7 +15,34 @@ def build(desc):
         return _diamond(desc)
     if fam == "edges":
         return _edges(desc)
+    if fam == "merge":
+        return _merge(desc)
     raise ValueError(fam)
+
+
+def _merge(desc):
+    """two inputs a, b of one type under identical sub-graphs; the b side is
+    shared by several users.  A copying mapper that maps b to a must merge
+    the two sides into one set of nodes (no equal-but-distinct results)."""
+    import pytato as pt
+    k = desc.get("users", 2)
+    depth = desc.get("depth", 1)
+    a = pt.make_placeholder("a", (3,), np.float64)
+    b = a if desc.get("merged") else pt.make_placeholder("b", (3,), np.float64)
+
+    def side(x):
+        y = x + 1
+        for d in range(depth - 1):
+            y = pt.sin(y) * (d + 2)
+        return y
+    sa, sb = side(a), side(b)
+    out = sa
+    for j in range(k):
+        out = out + sb * (j + 2)
+    outs = {"out": out}
+    if desc.get("second_output"):
+        outs["sb"] = sb * 7
+    return pt.make_dict_of_named_arrays(outs), {"dup": False, "merge": (b, a)}
 
 
 def _step(x, k: int, variant: int):
@@ -122,6 +149,11 @@ def _edges(desc):
         r0, r1 = pt.trace_call(f, s, s)
         outs["call0"] = r0
         outs["call1"] = r1 + s
+        if desc.get("call_twice"):
+            # a second trace of the same function: an equal but distinct
+            # FunctionDefinition (C20: counted as a duplicate)
+            q0, q1 = pt.trace_call(f, s, s)
+            outs["call2"] = q0 * 3 + q1
     if "dict" in kinds:
         outs["dict"] = s
     if "named" in kinds:
